@@ -322,7 +322,7 @@ class C19(Prop):
                     n = int(t[2]) if len(t) > 2 and t[2].lstrip("-").isdigit() else -1
                     key = "wait-0" if n == 0 else "wait-1" if n == 1 else "wait-many"
                 elif t[0] == "wjoin":
-                    key = "wjoin-" + t[-1]
+                    key = "wjoin-" + (t[3] if len(t) > 3 else "?")
                 elif t[0] == "mt":
                     key = "mt-%s-%s" % (t[1], t[2] if len(t) > 2 else "?")
                 elif t[0] == "post":
